@@ -171,7 +171,8 @@ the harness function hands both on (`both`: the result holds what it got from th
 def zipCall2 (rv0 rv1 : Bool) (n : Nat) (d : Dest) : List Instr :=
   (List.range n).flatMap fun i => [callAt rv0 0 i d, callAt rv1 1 i d]
 
-/-- what the harness function `sink_second` does with its second argument: an rvalue is moved into a local that dies, an lvalue is read -/
+/-- a user's function that does not keep the element: handed an rvalue it takes it by value (moved into the parameter, which dies),
+handed an lvalue it reads it -/
 def sinkAt (rv : Bool) (a i : Nat) : Instr := if rv then .xfer a i .move .drop else .read a i
 
 /-- `map_iteration` / `sequence_iteration` (node containers): the user's action reads every element; answer 0 = remove: `erase(it)` -/
@@ -201,6 +202,9 @@ def compact (a : Nat) (mask : List Nat) : List Instr :=
       ((List.range (mask.length - (f + 1))).flatMap fun j =>
         .read a (f + 1 + j) :: (if mask[f + 1 + j]? = some 1 then [.shift a (f + 1 + j)] else [])) ++
       ((List.range mask.length).filter fun i => mask[i]? == some 0).map fun i => .pop a i .drop
+
+/-- a user's function that keeps nothing is handed the first `n` elements one by one (`sinkAt`) -/
+def sinkAll (rv : Bool) (a n : Nat) : List Instr := (List.range n).map fun i => sinkAt rv a i
 
 def freshRange (n : Nat) (d : Dest) : List Instr := (List.range n).map fun j => .fresh (1000 + j) d
 
@@ -248,7 +252,8 @@ def prog (o : Op) (inp : Input) : List Instr :=
   | .optMap => callAll (rv 0) 0 (n 0) .res
   | .optBind =>
     -- par = [keep]: the user's function reads its argument and answers with an optional holding it (moved through / derived) or nothing
-    if rv 0 then readAll 0 (n 0) ++ (if par0 = 1 then xferAll 0 (n 0) .move .res else [])
+    -- (handed an rvalue the user's function takes it by value: when it answers nothing the element dies with the parameter)
+    if rv 0 then (if par0 = 1 then readAll 0 (n 0) ++ xferAll 0 (n 0) .move .res else readAll 0 (n 0) ++ xferAll 0 (n 0) .move .drop)
     else deriveEach 0 (List.replicate (n 0) par0) .res
   | .optFrom => if n 0 = 0 then [.fresh 1000 .res] else xferAll 0 (n 0) (fwd (rv 0)) .res
   | .optAlt =>
@@ -352,10 +357,11 @@ def prog (o : Op) (inp : Input) : List Instr :=
   | .eithToException => if par0 = 1 then xferAll 0 (n 0) (fwd (rv 0)) .res else callAll (rv 0) 0 (n 0) .res
   | .eithErrorFromOptional => xferAll 0 (n 0) (fwd (rv 0)) .res
   | .eithSequenceError =>
-    -- par = what the user's function answers per element (1 = no_error after reading it, 0 = a failure that takes the element)
+    -- par = what the user's function answers per element (1 = no_error, 0 = a failure that keeps the element); an element handed over as
+    -- an rvalue is taken by value: with the answer no_error it dies with the parameter
     match inp.par.findIdx? (· == 0) with
-    | some k => readAll 0 k ++ [callAt (rv 0) 0 k .res]
-    | none => readAll 0 (n 0)
+    | some k => sinkAll (rv 0) 0 k ++ [callAt (rv 0) 0 k .res]
+    | none => sinkAll (rv 0) 0 (n 0)
   -- either::loop: par0 successes (each moved into the user's `loop` function, which keeps them), then the failure
   | .eithLoop => freshRange (par0 + 1) .res
   -- algorithm::find_opt / index_of / contains: `std::find`; par0 = k: the value looked for is element k of the range itself
@@ -713,10 +719,43 @@ def keeps (o : Op) (inp : Input) (a : Nat) : Bool :=
 /-- the operations whose program destroys values it took or made (a second failure in `either::apply`, the failures before the
 first success in `first_success`, a half-parsed sequence, the emptied `move_range`) -/
 def drops : Op → Bool
-  | .eithApply2 | .eithFirstSuccess | .parseSequence | .moveRangeMap | .optCombine | .optAssign
+  | .eithApply2 | .eithFirstSuccess | .parseSequence | .moveRangeMap | .optCombine | .optAssign | .optBind | .eithSequenceError
   | .algMapIteration | .algMapIterationSecond | .algSeqIteration | .treeAssign | .treeSetValue | .treeErase | .treeEraseRange | .treeClear
   | .gridAssign | .gridFill | .parseAsStruct | .optsProduct | .optsSum | .recSet | .algRemoveIf | .algUniqueIf | .algRemove | .algSeqIterationVec => true
   | _ => false
+
+/-! ## which transfers are calls of a user's function
+
+The value category with which the library hands an element to a user's function is part of the event abstraction (`uc=` of the result
+line): `derive` = the function got an lvalue (`l`); a `read` in an operation whose reads are the user's predicate / action = `l`
+(`userReads`; the other reads are comparisons made by the library or by std algorithms); an `xfer … move` in an operation (branch) whose
+moves are the hand-over of an rvalue to the user's function, which takes it by value = `r` (`userMoves`; the other moves are the library's
+own: forwarding into a result, constructors, `join`, …). -/
+
+def userReads : Op → Bool
+  | .optFilter | .algFindIfOpt | .algLoopBreakTuple | .algMapIteration | .algMapIterationSecond | .algSeqIteration | .algSeqIterationVec
+  | .algRemoveIf | .eithSequenceError | .optCombine | .optCombineSelf => true
+  | _ => false
+
+def userMoves (o : Op) (inp : Input) : Bool :=
+  let par0 := inp.par.headD 0
+  let par1 := (inp.par.drop 1).headD 0
+  match o with
+  | .algMap | .algMapList | .algMapArr | .algMapTup | .tupMap | .arrMap | .recMap | .gridMap | .optMap | .varMatch | .varApply | .varApply2
+  | .eithMatch | .tupInvoke | .optMaybe | .optMaybeVoid | .optMaybeMulti2 | .optMaybeVoidMulti2 | .moveRangeMap | .arrApply2 | .optBind
+  | .optApply2 | .gridApply2 | .eithSequenceError => true
+  | .eithBind | .eithMap => par0 == 1
+  | .eithMapFailure | .eithToException => par0 != 1
+  | .eithApply2 => par0 == 1 && par1 == 1
+  | .optCombine => inp.size 0 == 1 && inp.size 1 == 1
+  | _ => false
+
+/-- the value categories of the user-function calls of a program, in order -/
+def ucOf (o : Op) (inp : Input) : Instr → List Char
+  | .derive _ _ _ _ => ['l']
+  | .read _ _ => if userReads o then ['l'] else []
+  | .xfer _ _ .move _ => if userMoves o inp then ['r'] else []
+  | _ => []
 
 /-! ## the programs of three repaired defects, kept for the refuted examples in Props/C05.lean -/
 
